@@ -81,6 +81,7 @@ fn check_path(ev: &mut Ev, s: &str) -> CaseResult {
                             )
                             .into());
                         }
+                        check_equal_values(ev, what, &v, &w)?;
                     }
                     Err(_) => {
                         return Err(format!("{what} {text:?} is rejected").into());
@@ -92,6 +93,59 @@ fn check_path(ev: &mut Ev, s: &str) -> CaseResult {
             }
             Ok(())
         }
+    }
+}
+
+fn std_hash<T: std::hash::Hash>(v: &T) -> u64 {
+    use std::hash::Hasher;
+    let mut h = std::collections::hash_map::DefaultHasher::new();
+    v.hash(&mut h);
+    h.finish()
+}
+
+/// "Equal values" also for a caller that keys a map or sorts by them: values
+/// that compare equal must hash alike and order as equal (the Eq/Hash/Ord
+/// contracts of the standard library).
+fn check_equal_values(ev: &mut Ev, what: &str, a: &PkgPath, b: &PkgPath) -> CaseResult {
+    ev.evals(2);
+    ev.count("path/equal-values/hash-and-order");
+    if std_hash(a) != std_hash(b) {
+        return Err(format!("{what}: values compare equal but hash differently: {a:?} vs {b:?}").into());
+    }
+    if a.cmp(b) != std::cmp::Ordering::Equal || a.partial_cmp(b) != Some(std::cmp::Ordering::Equal) {
+        return Err(format!("{what}: values compare equal but cmp() is {:?}: {a:?} vs {b:?}", a.cmp(b)).into());
+    }
+    let c = a.clone();
+    if &c != a || std_hash(&c) != std_hash(a) {
+        return Err(format!("{what}: a clone differs from its original: {a:?} vs {c:?}").into());
+    }
+    Ok(())
+}
+
+/// For strings whose acceptance the statement leaves open (a name with a
+/// line break, a blank or a NUL in it): whatever `new` decides, `from_str`
+/// decides the same and gives an equal value.
+fn check_path_routes(ev: &mut Ev, s: &str) -> CaseResult {
+    ev.evals(2);
+    match (PkgPath::new(s), PkgPath::from_str(s), s.parse::<PkgPath>()) {
+        (Err(_), Err(_), Err(_)) => {
+            ev.count("path/routes/rejected");
+            Ok(())
+        }
+        (Ok(a), Ok(b), Ok(c)) => {
+            ev.count("path/routes/accepted");
+            if a != b || a != c {
+                return Err(format!("new() gives {a:?}, from_str() {b:?}, parse() {c:?}").into());
+            }
+            check_equal_values(ev, "new() and from_str()", &a, &b)
+        }
+        (a, b, c) => Err(format!(
+            "new() accepts = {}, from_str() accepts = {}, parse() accepts = {}",
+            a.is_ok(),
+            b.is_ok(),
+            c.is_ok()
+        )
+        .into()),
     }
 }
 
@@ -150,7 +204,11 @@ fn check_depend(ev: &mut Ev, s: &str) -> CaseResult {
                 if d2 != d {
                     return Err("from_str() value differs from new()".into());
                 }
+                if std_hash(&d2) != std_hash(&d) || std_hash(&d.clone()) != std_hash(&d) {
+                    return Err("equal Depend values hash differently".into());
+                }
             }
+            check_equal_values(ev, "Depend::pkgpath() and the path half parsed directly", d.pkgpath(), &path)?;
             ev.nontrivial(hash_bytes(s.as_bytes()));
             Ok(())
         }
@@ -189,6 +247,8 @@ pub fn run(cx: &mut Cx) {
         "depend/colons-2/rejected",
         "depend/colons-3/rejected",
         "workload/real_names",
+        "workload/decorated",
+        "path/equal-values/hash-and-order",
         "depend_words/fields-2",
         "depend_words/fields-3",
         "depend_words/fields-4",
@@ -281,6 +341,37 @@ pub fn run(cx: &mut Cx) {
         }
     }
     cx.ev.max("max/depend_strings", i);
+
+    // (c2) decorated halves: line ends, blanks, a NUL or a BOM in front of or
+    // behind an otherwise valid path or pattern (what a caller gets from
+    // read_line or a sloppy split).  Whether such a path is acceptable is not
+    // stated; that every route decides alike, and that Depend's parts are what
+    // parsing each half directly gives, is.
+    const DECOR: [&str; 9] = ["\n", "\r\n", "\r", " ", "\t", "\0", "\u{feff}", "/\n", "\n\n"];
+    let mut i = 0u64;
+    for q in gm::DEP_PATHS.iter() {
+        for d in DECOR.iter() {
+            for (path, where_) in [(format!("{q}{d}"), "behind"), (format!("{d}{q}"), "in front")] {
+                i += 1;
+                if !cx.mine(i) {
+                    continue;
+                }
+                cx.check(
+                    || format!("decorated path \"{}\" ({where_})", show(path.as_bytes())),
+                    |ev| {
+                        ev.count("workload/decorated");
+                        check_path_routes(ev, &path)?;
+                        for p in ["foo-[0-9]*", "foo>=1.0", "{a,b}-1"] {
+                            check_depend(ev, &format!("{p}:{path}"))?;
+                            check_depend(ev, &format!("{p}{d}:{q}"))?;
+                            check_depend(ev, &format!("{d}{p}:{q}"))?;
+                        }
+                        Ok(())
+                    },
+                );
+            }
+        }
+    }
 
     // (d) Depend: every arrangement of 1-4 ':'-separated fields over plain
     // vocabulary words (each a valid pattern on its own), valid patterns and
